@@ -14,9 +14,54 @@ use std::fs;
 use std::path::Path;
 use syn::*;
 
+/// payload of the panic that aborts the translation of one group of generated files
+struct XFail(String);
+
 fn die(msg: String) -> ! {
-    println!("translation failed at {msg}");
-    std::process::exit(1)
+    std::panic::panic_any(XFail(msg))
+}
+
+type Files = Vec<(&'static str, String)>;
+
+/// Run one group; on failure report it and — when a baseline directory is given — fall back to the
+/// committed model of the pinned source for ALL files of the group (they are only consistent together).
+fn run_group(name: &str, files: &[&'static str], out: &Path, baseline: Option<&Path>, f: impl FnOnce() -> Files + std::panic::UnwindSafe) -> bool {
+    match std::panic::catch_unwind(f) {
+        Ok(fs_) => {
+            for (n, c) in fs_ {
+                write_if_changed(&out.join(n), &c);
+            }
+            true
+        }
+        Err(e) => {
+            let msg = match e.downcast_ref::<XFail>() {
+                Some(x) => x.0.clone(),
+                None => match e.downcast_ref::<String>() {
+                    Some(s) => format!("{name}: translator panicked: {s}"),
+                    None => match e.downcast_ref::<&str>() {
+                        Some(s) => format!("{name}: translator panicked: {s}"),
+                        None => format!("{name}: translator panicked"),
+                    },
+                },
+            };
+            println!("translation failed at {msg}");
+            if let Some(b) = baseline {
+                for n in files {
+                    match fs::read_to_string(b.join(n)) {
+                        Ok(c) => write_if_changed(&out.join(n), &c),
+                        Err(e) => {
+                            println!("no baseline for {n}: {e}");
+                            std::process::exit(1)
+                        }
+                    }
+                }
+                println!("FALLBACK {name}: {}", msg.replace('\n', " "));
+                true
+            } else {
+                false
+            }
+        }
+    }
 }
 
 fn write_if_changed(path: &Path, content: &str) {
@@ -94,13 +139,33 @@ fn kind_ref(k: &Kinds, e: &Expr) -> std::result::Result<String, String> {
 
 fn main() {
     let args: Vec<String> = std::env::args().collect();
-    if args.len() != 3 {
-        eprintln!("usage: glas-xlate <repo> <out-dir>");
+    if args.len() != 3 && args.len() != 4 {
+        eprintln!("usage: glas-xlate <repo> <out-dir> [<baseline-dir>]");
         std::process::exit(2);
     }
-    let repo = Path::new(&args[1]);
-    let out = Path::new(&args[2]);
-    fs::create_dir_all(out).unwrap();
+    let repo = Path::new(&args[1]).to_path_buf();
+    let out = Path::new(&args[2]).to_path_buf();
+    let baseline = args.get(3).map(|b| Path::new(b).to_path_buf());
+    fs::create_dir_all(&out).unwrap();
+    std::panic::set_hook(Box::new(|_| {}));
+    let mut ok = true;
+    let repo1 = repo.clone();
+    ok &= run_group("syntax", &["Kind.lean", "Lexer.lean", "Parser.lean", "Policy.lean"], &out, baseline.as_deref(), move || syntax_group(&repo1));
+    let repo2 = repo.clone();
+    ok &= run_group("rename", &["Rename.lean"], &out, baseline.as_deref(), move || {
+        vec![("Rename.lean", rename::extract(&repo2).unwrap_or_else(|e| die(e)))]
+    });
+    let repo3 = repo.clone();
+    ok &= run_group("choreo", &["Choreo.lean"], &out, baseline.as_deref(), move || {
+        vec![("Choreo.lean", choreo::extract(&repo3).unwrap_or_else(|e| die(e)))]
+    });
+    if !ok {
+        std::process::exit(1);
+    }
+}
+
+fn syntax_group(repo: &Path) -> Files {
+    let mut files: Files = Vec::new();
     let syn_dir = repo.join("crates/syntax/src");
 
     // ---------------- kind.rs ----------------
@@ -169,7 +234,7 @@ fn main() {
         }
     }
     g.push_str("\nend Glas.Gen\n");
-    write_if_changed(&out.join("Kind.lean"), &g);
+    files.push(("Kind.lean", g));
 
     // ---------------- lexer rules ----------------
     let mut l = String::new();
@@ -198,7 +263,7 @@ fn main() {
         kinds.rules.iter().filter(|r| r.skip).map(|r| format!("K_{}", r.kind)).collect::<Vec<_>>().join(", ")
     ));
     l.push_str(&format!("def lexErrorKind : Nat := K_{error_kind}\n\nend Glas.Gen\n"));
-    write_if_changed(&out.join("Lexer.lean"), &l);
+    files.push(("Lexer.lean", l));
 
     // lex_string callback: structural check against the modelled algorithm
     let lexer_src = fs::read_to_string(syn_dir.join("lexer.rs")).unwrap_or_else(|e| die(format!("lexer.rs: {e}")));
@@ -288,7 +353,7 @@ fn main() {
 
     let mut procs = Vec::new();
     for f in &fns {
-        procs.push(parser::translate_fn(&gen, f).unwrap_or_else(|e| die(e.0)));
+        procs.push(parser::translate_fn(&gen, *f).unwrap_or_else(|e| die(e.0)));
     }
     let main_idx = gen.sigs.get("module").map(|s| s.idx).unwrap_or_else(|| die("parser.rs: fn module not found".into()));
     let (fuel, trivia_pred) = policy::parse_module_facts(&pfile).unwrap_or_else(|e| die(e.0));
@@ -325,19 +390,11 @@ fn main() {
         tables.iter().map(|(n, _)| format!("T_{n}")).collect::<Vec<_>>().join(", "),
     ));
     p.push_str(&format!("/-- the predicate `parse_module` filters the raw tokens with -/\ndef parserTrivia (k : Nat) : Bool := {trivia_pred} k\n\nend Glas.Gen\n"));
-    write_if_changed(&out.join("Parser.lean"), &p);
+    files.push(("Parser.lean", p));
 
     // ---------------- build_tree policy ----------------
     let pol = policy::extract_policy(&gen, &pfile).unwrap_or_else(|e| die(e.0));
-    write_if_changed(&out.join("Policy.lean"), &pol);
-
-    // ---------------- rename decision table ----------------
-    let rn = rename::extract(repo).unwrap_or_else(|e| die(e));
-    write_if_changed(&out.join("Rename.lean"), &rn);
-
-    // ---------------- cancellation / lock choreography ----------------
-    let ch = choreo::extract(repo).unwrap_or_else(|e| die(e));
-    write_if_changed(&out.join("Choreo.lean"), &ch);
+    files.push(("Policy.lean", pol));
 
     println!(
         "xlate ok: {} kinds, {} lexer rules, {} token sets, {} procedures, {} error kinds",
@@ -347,4 +404,5 @@ fn main() {
         procs.len(),
         gen.errors.len()
     );
+    files
 }
